@@ -106,6 +106,41 @@ theorem C20_linkinfo (kind : Bytes) (hk : kind = canKind ∨ kind = vcanKind) (b
   have e2 : ¬ (IFLA_CAN_CTRLMODE = IFLA_CAN_BITTIMING) := by decide
   simp only [decodeInfo, if_true, ubt, e2, if_false, ucm]
 
+/-- layout of the fixed-size attributes `Info.decode` recognises -/
+def infoLayout (t : Nat) : Option (List Item) :=
+  if t = IFLA_CAN_BITTIMING then some bitTimingLayout
+  else if t = IFLA_CAN_CTRLMODE then some ctrlModeLayout
+  else if t = IFLA_CAN_BITTIMING_CONST then some bitTimingConstLayout
+  else if t = IFLA_CAN_CLOCK then some clockLayout
+  else if t = IFLA_CAN_BERR_COUNTER then some berrLayout
+  else none
+
+/-- A wrong-sized fixed-size attribute makes the whole info decode fail wherever it stands in the attribute list:
+no later well-formed attribute can turn the error back into success. -/
+theorem C20_info_size_guard (li : LinkInfo) (as : List (Nat × Bytes)) (t : Nat) (p : Bytes) (lay : List Item)
+    (hm : (t, p) ∈ as) (hl : infoLayout t = some lay) (hs : p.length ≠ layoutSize lay) :
+    decodeInfo li as = none := by
+  induction as generalizing li with
+  | nil => cases hm
+  | cons a r ih =>
+    obtain ⟨t', p'⟩ := a
+    have hrec : ∀ li', (t, p) ∈ r → decodeInfo li' r = none := fun li' h => ih li' h
+    rcases List.mem_cons.mp hm with heq | hr
+    · cases heq
+      have g := C20_size_guard lay p hs
+      unfold infoLayout at hl
+      repeat' split at hl
+      all_goals (try cases hl)
+      all_goals (subst_vars; simp [decodeInfo, g, IFLA_CAN_BITTIMING, IFLA_CAN_CTRLMODE, IFLA_CAN_BITTIMING_CONST,
+        IFLA_CAN_CLOCK, IFLA_CAN_BERR_COUNTER])
+    · unfold decodeInfo
+      repeat' split
+      all_goals first | rfl | exact hrec _ hr
+
+/-- non-vacuity: a 31-byte bit timing followed by a valid control mode is rejected -/
+example : decodeInfo {} [(IFLA_CAN_BITTIMING, List.replicate 31 0), (IFLA_CAN_CTRLMODE, List.replicate 8 0)] = none := by
+  decide
+
 /-- non-vacuity: concrete field values within range -/
 example : U32s 8 [500000, 875, 125, 6, 7, 2, 1, 10] ∧ U32s 2 [0x20, 0x20] := by
   constructor <;> exact ⟨rfl, by decide⟩
